@@ -29,6 +29,8 @@ def slots_for(ctx, tier):
         flip = ctx.rng.random() < 0.5
         if tier == "thorough":
             return [("testify", True), ("testify", False), ("matryer", True), ("matryer", False), ("testify", None), ("matryer", None)]
+        if prog.get("extpkg"):
+            return [("testify", False), ("matryer", False), ("matryer", False)]
         if prog["fam"] == "multi":        # 5-7 interfaces per file: two slots, the placement flips with the seed
             return [("testify", flip), ("matryer", not flip), ("matryer", flip)]
         if prog["fam"] in ("pkgs", "generic", "mname", "local", "unnamed") or prog["idclass"] in ("typename", "caseclash"):
@@ -38,7 +40,7 @@ def slots_for(ctx, tier):
 
 
 def run_world(ctx, gm, world, cases, traces):
-    entries = {cs.pkgpath: (cs.cid, cw.mockery_entry(cs)) for cs in cases}
+    entries = {cw.ekey(cs): (cs.cid, cw.mockery_entry(cs)) for cs in cases}
     res = cw.run_chunks_traced(ctx, world, entries, "m", traces, chunk=60, par=4)
     for cs in cases:
         cs.mockery = res.get(cs.cid, (None, {"why": "no result"}))
@@ -78,7 +80,7 @@ def run(ctx):
     fams = {cs.prog["fam"] for cs in allcases} if not replay else set()
     if replay:
         return run_cases(ctx, sp, worlds, allcases, pids, 0, 0, 0)
-    need = {"shape", "ident", "pkgs", "embed", "generic", "mname", "local", "unnamed", "multi"}
+    need = {"shape", "ident", "pkgs", "embed", "generic", "mname", "local", "unnamed", "multi", "ext"}
     if not need <= fams:
         raise MachineryError("vacuous: families never executed: %s" % (need - fams))
     for dim, vals in (("fmt", {"goimports", "gofmt", "noop"}), ("place", set(cw.PLACEMENTS)), ("gomod", set(cw.GOMOD_SPELLINGS)),
@@ -154,7 +156,7 @@ def run_cases(ctx, sp, worlds, allcases, pids, ncov, aliased, renamed):
         if failed:
             sig = cw.failure_sig(cs, ok_m, det, err)
             detail = {"case": cs.brief(), "expect": exp, "observed": {"mockery_ok": ok_m, "mockery": det, "first_type_error": err},
-                      "source": (cs.world / cs.dir / "src.go").read_text(),
+                      "source": cw.source_text(cs),
                       "generated": f.read_text(errors="replace")[:6000] if f.exists() else None, "predicted_issue_tags": sorted(tags)}
             ctx.violation(sig, detail)
             continue
@@ -182,31 +184,76 @@ def run_cases(ctx, sp, worlds, allcases, pids, ncov, aliased, renamed):
             json.dump([{"sig": s_, "err": d_["observed"]["first_type_error"] or d_["observed"]["mockery"], "pid": d_["case"]["pid"]}
                        for s_, d_ in ctx.violations] +
                       [{"known": k, "n": v["n"], "example": v["ex"]} for k, v in ctx.known_hits.items()], fh, indent=1, default=str)
-    # ---------------------------------------------------------------- repeated generation (C06-relevant, recorded as a note)
-    # cases where ONE type expression first mentions two packages of the same name (Codegen.tla `samename`): which of them is
-    # aliased must follow the traversal order, never a map order.  Generate them two more times and compare the bytes.
+    # ---------------------------------------------------------------- history: generate AGAIN over the existing output
+    # A second run sees its own previous output (in-package mocks are part of the loaded source package, the output file
+    # exists): it must succeed and the result must still type-check (C01); differing bytes are recorded as a note (C06's).
+    # All cases where ONE type expression first mentions two same-named packages (Codegen.tla `samename`: alias assignment
+    # must follow the traversal order, never a map order) are included and regenerated twice.
     import hashlib
-    same = [cs for cs in allcases if cs.pred.get("samename") and cs.mockery[0]]
+    okcases = [cs for cs in allcases if cs.mockery[0] and cs.pred["expect"]["guarantee"] and not cw.case_error(errs_by[cs.cfg["gomod"]], cs)]
+    same = [cs for cs in okcases if cs.pred.get("samename")]
     same = ctx.rng.sample(same, min(30, len(same)))
-    n_nondet = 0
-    if same:
-        def digest(cs):
-            return hashlib.sha256((cs.world / cs.outdir / cs.outfile).read_bytes()).hexdigest()
-        first = {cs.cid: digest(cs) for cs in same}
-        differs = set()
-        for rnd in range(2):
-            byworld = {}
-            for cs in same:
-                byworld.setdefault(cs.world, {})[cs.pkgpath] = (cs.cid, cw.mockery_entry(cs))
-            for world, entries in byworld.items():
-                cw.run_chunks(ctx, world, entries, "r%d" % rnd, chunk=20, par=4)
-            differs |= {cs.cid for cs in same if digest(cs) != first[cs.cid]}
-        n_nondet = len(differs)
-        for cs in same:
-            if cs.cid in differs:
-                ctx.note("nondeterministic output (same input, different bytes across runs): %s [%s %s] -- one type mentions two same-named packages"
-                         % (cs.pid, cs.cfg["tmpl"], cs.cfg["place"]))
-    T(ctx, "repeated generation of %d same-name cases" % len(same))
+    others = [cs for cs in okcases if cs not in same]
+    others_sample = ctx.rng.sample(others, min(len(others), 90 if ctx.tier == "quick" else 1500))
+    again = same + others_sample
+    n_nondet = n_rerun_fail = 0
+
+    def digest(cs):
+        return hashlib.sha256((cs.world / cs.outdir / cs.outfile).read_bytes()).hexdigest()
+    first = {cs.cid: digest(cs) for cs in again}
+    differs = set()
+    # every other one of the sampled cases is regenerated with the OTHER built-in template into the same file (a different,
+    # usually shorter or longer, content replaces the old one) -- only where the model predicts no issue for that template either
+    import copy
+    cfg_index = {}
+    for c_ in sp.cfgs:
+        g = c_["cfg"]
+        if g["ovr"] == "none" and not g["boilerplate"] and not g["buildtags"]:
+            cfg_index.setdefault((g["tmpl"], g["place"], g["gomod"], g["fmt"]), c_)
+    flipped = {}
+    for i, cs in enumerate(others_sample):
+        if i % 2:
+            continue
+        other = "matryer" if cs.cfg["tmpl"] == "testify" else "testify"
+        c2 = cfg_index.get((other, cs.cfg["place"], cs.cfg["gomod"], cs.cfg["fmt"]))
+        if c2 is None:
+            continue
+        ens2 = other == "matryer" and not c2["expect"]["predkey"]["skipensure"]
+        p2 = sp.pred(cs.pid, other, c2["expect"]["inpkg"], ens2)
+        if not p2["expect"]["guarantee"] or p2["modelissues"] or any(e_["tags"] for e_ in p2["issues"]):
+            continue
+        cs2 = copy.copy(cs)
+        cs2.cfg, cs2.cexpect, cs2.pred, cs2.extra = c2["cfg"], c2["expect"], p2, {"ens": ens2}
+        flipped[cs.cid] = cs2
+    for rnd, group in enumerate((again, same)):
+        byworld = {}
+        for cs in group:
+            byworld.setdefault(cs.world, {})[cw.ekey(cs)] = (cs.cid, cw.mockery_entry(flipped.get(cs.cid, cs) if rnd == 0 else cs))
+        for world, entries in byworld.items():
+            res2 = cw.run_chunks(ctx, world, entries, "r%d" % rnd, chunk=40, par=4)
+            for cs in group:
+                if cs.world == world and res2.get(cs.cid, (True, None))[0] is False:
+                    n_rerun_fail += 1
+                    ctx.violation(dict(cw.failure_sig(cs, False, res2[cs.cid][1], ""), kind="rerun-failed"),
+                                  {"case": cs.brief(), "source": cw.source_text(cs), "second_run": res2[cs.cid][1]})
+        differs |= {cs.cid for cs in group if cs.cid not in flipped and (cs.world / cs.outdir / cs.outfile).exists() and digest(cs) != first[cs.cid]}
+    errs2 = {}
+    for gm, (world, cases) in worlds.items():
+        pats = sorted({"./" + cs.dir + "/..." for cs in again if cs.world == world})
+        if pats:
+            errs2[gm], _ = cw.typecheck(ctx, world, "second generation " + gm, patterns=pats)
+    for cs in again:
+        e2 = cw.case_error(errs2.get(cs.cfg["gomod"], {}), cs)
+        if e2:
+            n_rerun_fail += 1
+            ctx.violation(dict(cw.failure_sig(flipped.get(cs.cid, cs), True, None, e2), kind="rerun-typecheck", regenerated_with_other_template=cs.cid in flipped),
+                          {"case": cs.brief(), "source": cw.source_text(cs), "first_type_error_after_second_generation": e2})
+    n_nondet = len(differs)
+    for cs in again:
+        if cs.cid in differs:
+            ctx.note("nondeterministic output (same input, different bytes on regeneration): %s [%s %s]%s"
+                     % (cs.pid, cs.cfg["tmpl"], cs.cfg["place"], " -- one type mentions two same-named packages" if cs in same else ""))
+    T(ctx, "second generation of %d cases (%d same-name)" % (len(again), len(same)))
     if n_not_eval and not ctx.violations:
         raise MachineryError("%d cases were not evaluated (too many failing files per chunk) and no violation explains it" % n_not_eval)
     if n_not_eval:
@@ -230,12 +277,13 @@ def run_cases(ctx, sp, worlds, allcases, pids, ncov, aliased, renamed):
                     "config_pairs_covered": ncov, "tlc": sp.tlc,
                     "predicted_issue_reproduced": n_pred_repro, "predicted_issue_not_reproduced": n_pred_not,
                     "failed_without_prediction": n_unpred, "import_drift": n_drift_imp, "name_drift": n_drift_names,
-                    "samename_cases_regenerated": len(same), "nondeterministic_outputs": n_nondet,
+                    "cases_generated_twice": len(again), "samename_cases_regenerated": len(same), "nondeterministic_outputs": n_nondet,
+                    "second_generation_failures": n_rerun_fail, "regenerated_with_other_template": len(flipped),
                     "executed_with_aliased_import": aliased, "executed_with_renamed_parameter": renamed,
                     "concretisation": cw.concretisation_table()})
     good = [cs for cs in allcases if cs.mockery[0] and cs.pred["expect"]["guarantee"]]
     for cs in ctx.rng.sample(good, min(4, len(good))):
-        ctx.sample({"program": cs.pid, "cfg": cs.cfg, "source": (cs.world / cs.dir / "src.go").read_text()[:700],
+        ctx.sample({"program": cs.pid, "cfg": cs.cfg, "source": cw.source_text(cs)[:700],
                     "predicted_imports": cs.pred["imports"], "predicted_params": [m["ps"] for m in cs.pred["methods"]],
                     "result": "exit 0, type-checks"})
     ctx.assumptions += ["program space bounded as in spec/CodegenMC.tla (type depth <= 2, <= 4 methods, identifier alphabet listed there)",
